@@ -32,11 +32,17 @@ CONSTANTS Variants,     \* spellings of ua / ub explored ("plain", "upper", "nfd
           Maps,         \* subset of MapIds
           Norms,        \* auth_map_normalize settings (all full normalisations: "auto", "precis_casefold")
           Kinds,        \* operation kinds explored
+          UxVariants,   \* spellings of names that are never accounts: "plain" (mallory) and names made
+                        \* of SQL pattern characters that match an account name as a LIKE pattern
+                        \* ("under" zo_s ~ ua, "underb" ~ ub, "pct" %): still nobody's account
+          Tbls,         \* table module behind pass_table: "mem" (in-memory), "sql" (table.sql_table, sqlite3)
+          Defers,       \* defer_sender_reject settings of the submission endpoint
+          MailFroms,    \* reverse-paths tried in MAIL: "addr", "null" (<>), "nullparam" (<> BODY=8BITMIME), "upper", "utf8"
           MaxOps,       \* longest history (Gen only)
           Devs,         \* enabled deviations
           Gen           \* TRUE: keep the history and print complete behaviours
 
-VARIABLES cfg,      \* [map, norm, len]  fixed per behaviour
+VARIABLES cfg,      \* [map, norm, tbl, defer, len]  fixed per behaviour
           tbl,      \* the credential table: Users -> [pw, sch] or Absent
           sess,     \* the SMTP connection: [open, authed (the session has an identity), did (go-smtp's flag)]
           obs,      \* observation state (AuthObs)
@@ -48,7 +54,7 @@ vars == <<cfg, tbl, sess, obs, pending, hist, phase>>
 View == <<cfg, tbl, sess, obs, phase>>
 
 MutSp == [u : Users, v : Variants] \cup [u : {"bad"}, v : BadVariants]
-AllSp == MutSp \cup [u : {"ux"}, v : {"plain"}]
+AllSp == MutSp \cup [u : {"ux"}, v : UxVariants]
 Azs   == {"empty", "same", "variant", "other", "fold"}
 Mechs == {"PLAIN", "LOGIN"}
 
@@ -68,8 +74,8 @@ InitWith(c) ==
   /\ obs = ObsInit
   /\ pending = "none" /\ hist = <<>> /\ phase = "run"
 
-Init == \E m \in Maps, nm \in Norms, n \in (IF Gen THEN 1..MaxOps ELSE {0}) :
-          InitWith([map |-> m, norm |-> nm, len |-> n])
+Init == \E m \in Maps, nm \in Norms, tb \in Tbls, df \in Defers, n \in (IF Gen THEN 1..MaxOps ELSE {0}) :
+          InitWith([map |-> m, norm |-> nm, tbl |-> tb, defer |-> df, len |-> n])
 
 (* ---- what a SASL exchange answers, under the deviations D ------------- *)
 Outcome(mech, sp, pw, az, D) ==
@@ -181,12 +187,14 @@ SAuth(mech, sp, pw, D) ==
 
 (* Session.Mail: "authentication required" unless the session has an identity.
    (go-smtp lets MAIL be repeated inside a transaction, so no other state matters.) *)
-SMailRes == IF ~sess.authed THEN "refused" ELSE "ok"
+(* whatever the reverse-path (also the null one and odd ones), and whether the sender
+   is examined at MAIL or deferred to RCPT (defer_sender_reject) *)
+SMailRes(mf) == IF ~sess.authed THEN "refused" ELSE "ok"
 
-SMail ==
+SMail(mf) ==
   /\ phase = "run" /\ Turn("SMail") /\ sess.open
-  /\ obs' = ObsSMail(obs, SMailRes)
-  /\ hist' = H([a |-> "SMail"])
+  /\ obs' = ObsSMail(obs, SMailRes(mf))
+  /\ hist' = H([a |-> "SMail", mf |-> mf])
   /\ pending' = "none" /\ UNCHANGED <<cfg, tbl, sess, phase>>
 
 SRset ==
@@ -245,7 +253,8 @@ Ops(D) ==
   \/ \E sp \in AllSp, pw \in Pws : AuthPair(sp, pw, D)
   \/ \E sp \in AllSp, pw \in Pws : AuthDirect(sp, pw, D)
   \/ \E mech \in Mechs, sp \in AllSp, pw \in Pws : SAuth(mech, sp, pw, D)
-  \/ SOpen \/ SEhlo \/ SMail \/ SRset \/ SClose
+  \/ \E mf \in MailFroms : SMail(mf)
+  \/ SOpen \/ SEhlo \/ SRset \/ SClose
 
 Next ==
   \/ Ops(Devs)
